@@ -182,6 +182,18 @@ def evalOp (ws : List String) : String :=
          if want == got then "ok interp" else "bad interp model " ++ want
        | _, _ => "bad malformed-dump"
      | _, _ => "bad malformed-dump")
+  | "interpfdump" :: nps :: _ :: _ :: _ :: _ :: rest =>
+    -- the same dump after a real `ref_metric_interpolate` (whole-field transfer): donor-side combination over 4 rows
+    (match nps.toNat?, parseFs? rest with
+     | some np, some xs =>
+       if (np != 3 && np != 4) || xs.length != 43 then "bad malformed-dump" else
+       match xs.take 4, m6s ((xs.drop 4).take 24) with
+       | [b0, b1, b2, b3], [l0, l1, l2, l3] =>
+         let want := resPair (interpolateDonor np ⟨b0, b1, b2, b3⟩ l0 l1 l2 l3)
+         let got := okLine ((xs.drop 28).take 12)
+         if want == got then "ok interpf" else "bad interpf model " ++ want
+       | _, _ => "bad malformed-dump"
+     | _, _ => "bad malformed-dump")
   | "interpskip" :: _ => "ok interpskip"
   | _ => bad
 
